@@ -76,9 +76,41 @@ func f64(name string, v int64) fld { return fld{name: name, kind: "i64", i: v} }
 // serialise builds the byte stream, damaging the FIRST field called target.
 // Returns the bytes, whether the target was found, and the cut offset (-1: none).
 // preDamage applies the companion mutation of a pair (Field2/Class2) to the first field of that name.
+// ruleText handles the classes "rule:<prefix>|<pattern>" of the field filter.rule: the filter list then carries that
+// very rule, well-formed on the wire (its length word fits), whatever it means to the rule parser.
+func ruleText(fs []fld, target, class string) ([]fld, bool) {
+	if target != "filter.rule" || !strings.HasPrefix(class, "rule:") {
+		return fs, false
+	}
+	text := strings.Replace(strings.TrimPrefix(class, "rule:"), "|", "", 1)
+	out := append([]fld(nil), fs...)
+	for i := range out {
+		if out[i].name == "filter.len" {
+			out[i] = fI("filter.len", int64(len(text)))
+		}
+		if out[i].name == "filter.rule" {
+			out[i] = fB("filter.rule", []byte(text))
+		}
+	}
+	if text == "" {
+		// a length word 0 ends the list: send the empty rule as the list's end and drop the original terminator
+		var o2 []fld
+		for _, f := range out {
+			if f.name != "filter.rule" && f.name != "filter.end" {
+				o2 = append(o2, f)
+			}
+		}
+		out = o2
+	}
+	return out, true
+}
+
 func preDamage(fs []fld, target, class string, rnd *rand.Rand) []fld {
 	if target == "" {
 		return fs
+	}
+	if out, ok := ruleText(fs, target, class); ok {
+		return out
 	}
 	out := append([]fld(nil), fs...)
 	for i, f := range out {
@@ -312,7 +344,12 @@ func hostileHandler(w *workerCtx, line []byte) (any, error) {
 				s.Args = append(append([]string{}, s.Args...), "--progress")
 			}
 			fs := dropServer(daemonSenderScript(fdata, s.Args, s.Only), s.NoServer)
-			script, hit, _ = serialise(preDamage(fs, s.Field2, s.Class2, rnd), s.Field, s.Class, rnd)
+			if rt, ok := ruleText(fs, s.Field, s.Class); ok {
+				script, _, _ = serialise(rt, "", "", rnd)
+				hit = true
+			} else {
+				script, hit, _ = serialise(preDamage(fs, s.Field2, s.Class2, rnd), s.Field, s.Class, rnd)
+			}
 			script = applyNoise(script, &s, rnd)
 			a.Write(script)
 		} else {
